@@ -16,6 +16,7 @@ import (
 
 	"github.com/elastos/Elastos.ELA/database"
 	"github.com/elastos/Elastos.ELA/database/ffldb"
+	"github.com/elastos/Elastos.ELA/utils/verifhook"
 
 	"verif/kit"
 )
@@ -156,6 +157,25 @@ func runC16Concurrent(c *kit.Ctx) {
 			return
 		}
 		c.Begin("C16 concurrent history %d", h)
+
+		// Widen the window inside dbCache.Snapshot (between obtaining the leveldb snapshot and reading
+		// the cache roots) for every delayEvery-th snapshot of this history, so that a write transaction's
+		// flush can complete inside it. The sleep only shapes the interleaving; no verdict depends on it.
+		delayEvery := int64(0)
+		if r.Intn(3) != 0 {
+			delayEvery = int64(1 + r.Intn(4))
+		}
+		delayDur := time.Duration(200+r.Intn(1800)) * time.Microsecond
+		var snapHits, snapDelays int64
+		verifhook.Set(func(name string) {
+			if name != "ffldb.snapshot.afterLdbSnapshot" || delayEvery == 0 {
+				return
+			}
+			if atomic.AddInt64(&snapHits, 1)%delayEvery == 0 {
+				atomic.AddInt64(&snapDelays, 1)
+				time.Sleep(delayDur)
+			}
+		})
 
 		// pre-drawn plans (all randomness from the seeded stream)
 		type wplan struct {
@@ -331,6 +351,8 @@ func runC16Concurrent(c *kit.Ctx) {
 		}
 		close(start)
 		wg.Wait()
+		verifhook.Set(nil)
+		c.Count("conc_snapshot_delays", atomic.LoadInt64(&snapDelays))
 		db.Close()
 		os.RemoveAll(dir)
 
